@@ -51,24 +51,24 @@ def run(c, facts, tier):
     c.ob("C20.function", "CompiledExpression::scheme", "result is one template over the stored parts and the path", okf, "scheme() is a single format! with holes %s" % ([emit.canon(h) for h in sk["holes"]] if okf else sk))
     if okf:
         fields = {f["name"] for f in st["fields"]}
-        other = [emit.canon(h) for h in sk["holes"] if not (h.get("kind") == "field" and h.get("field") in fields) and not (h.get("kind") == "param")]
+        other = [emit.canon(h) for h in sk["holes"] if not (h.get("kind") == "field" and h.get("field") in fields) and "@" not in emit.canon(h)]
         c.ob("C20.function", "CompiledExpression::scheme", "every hole is a stored part or the path", not other, "other holes: %s" % other if other else "%d field holes + path" % (len(sk["holes"]) - 1))
         # C20.one-hole
         sc = emit.scan_scheme(sk["parts"])
-        mdt = [(h, ins, d) for h, ins, d, _ in sc["holes"] if h.get("kind") == "param"]
+        mdt = [(h, ins, d) for h, ins, d, _ in sc["holes"] if "@" in emit.canon(h)]
         c.ob("C20.one-hole", "CompiledExpression::scheme", "the path occurs exactly once", len(mdt) == 1, "occurrences of the path parameter in the template: %d" % len(mdt), witness="render for /a and /b: the programs differ in more than one place" if len(mdt) != 1 else None)
         if mdt:
             h, ins, d = mdt[0]
             c.ob("C20.one-hole", "CompiledExpression::scheme", "the path is inside a string literal", ins, "in string literal: %s" % ins)
             args = sk.get("lipe_scan_args") or []
-            c.ob("C20.one-hole", "CompiledExpression::scheme", "the path is the first argument of lipe-scan", bool(args) and args[0] == '"{mdt}"' or (bool(args) and re.fullmatch(r'"\{[^}]*\}"', args[0]) is not None and sum(1 for a in args if "{" in a and "self." not in a) == 1), "lipe-scan arguments: %s" % args)
+            c.ob("C20.one-hole", "CompiledExpression::scheme", "the path is the first argument of lipe-scan", bool(args) and args[0] == '"{%s}"' % emit.canon(h) and sum(1 for a in args if "@" in a) == 1, "lipe-scan arguments: %s" % args)
             # no other hole depends on mdt: all others are self.fields (checked above)
             # C20.decodes
             sani = json.load(open(c04.SANI))
             good = {}
             for ent in sani["sanitisers"]:
                 ok, det = c04.verify_sanitiser(facts, ent)
-                if ok:
+                if ok and (not ent.get("compose") or ent["compose"] in good):
                     good[ent["fn"]] = set(ent["map"])
             callee = h.get("callee") if h.get("kind") == "call" else None
             raw = h.get("kind") == "param"
